@@ -34,7 +34,7 @@ Hypothesis IP_nil : IP [].
 Hypothesis IP_firstn : forall n l, IP l -> IP (firstn n l).
 Hypothesis IP_skipn : forall n l, IP l -> IP (skipn n l).
 Hypothesis IP_app : forall a b, IP a -> IP b -> IP (a ++ b).
-Hypothesis IP_key : forall z, (32 <= z < 127)%Z -> IP [byte_of_N (Z.to_N z)].
+Hypothesis IP_key : forall z, (32 <= z < 128)%Z -> IP [byte_of_N (Z.to_N z)].   (* 0x7f: ascii_composer pushes it *)
 
 Definition op_ok (o : op) : Prop := match o with OpSetInput v => IP v | _ => True end.
 
@@ -202,6 +202,13 @@ Proof.
   cbn [fst]. apply add_segment_inv; [exact H | apply seg_inv_tags, seg_inv_new].
 Qed.
 
+Lemma ascii_proceed_inv o sg : segs_inv (sg_segs sg) -> segs_inv (sg_segs (fst (ascii_proceed o sg))).
+Proof.
+  intros H. unfold ascii_proceed. destruct (negb (opts_get o opt_ascii_mode)); [exact H|].
+  destruct (cur_start sg <? length (sg_input sg)); [|exact H].
+  cbn [fst]. apply add_segment_inv; [exact H | apply seg_inv_tags, seg_inv_new].
+Qed.
+
 (** a property every segmentor preserves holds after the round *)
 Lemma run_segmentors_ind (P : segmentation -> Prop) o h l :
   (forall i sg, P sg -> P (fst (segmentor_proceed cfg o h i sg))) ->
@@ -216,7 +223,7 @@ Lemma segmentor_proceed_inv o h i sg :
   segs_inv (sg_segs sg) -> segs_inv (sg_segs (fst (segmentor_proceed cfg o h i sg))).
 Proof.
   intros H. destruct i; cbn [segmentor_proceed fst];
-    [apply abc_proceed_inv | apply punct_proceed_inv | apply fallback_proceed_inv]; exact H.
+    [apply abc_proceed_inv | apply punct_proceed_inv | apply fallback_proceed_inv | apply ascii_proceed_inv]; exact H.
 Qed.
 
 Lemma seg_round_inv o h sg : segs_inv (sg_segs sg) -> segs_inv (sg_segs (seg_round cfg o h sg)).
@@ -320,9 +327,15 @@ Proof.
   destruct (negb (printable ch)); [reflexivity|]. destruct (punct_lookup cfg o ch); [|reflexivity].
   cbn [fst]. apply add_segment_input.
 Qed.
+Lemma ascii_proceed_input o sg : sg_input (fst (ascii_proceed o sg)) = sg_input sg.
+Proof.
+  unfold ascii_proceed. destruct (negb (opts_get o opt_ascii_mode)); [reflexivity|].
+  destruct (cur_start sg <? length (sg_input sg)); [|reflexivity]. cbn [fst]. apply add_segment_input.
+Qed.
 Lemma segmentor_proceed_input o h i sg : sg_input (fst (segmentor_proceed cfg o h i sg)) = sg_input sg.
 Proof.
-  destruct i; cbn [segmentor_proceed fst]; [apply abc_proceed_input | apply punct_proceed_input | apply fallback_proceed_input].
+  destruct i; cbn [segmentor_proceed fst];
+    [apply abc_proceed_input | apply punct_proceed_input | apply fallback_proceed_input | apply ascii_proceed_input].
 Qed.
 Lemma seg_round_input o h sg : sg_input (seg_round cfg o h sg) = sg_input sg.
 Proof.
@@ -578,10 +591,21 @@ Proof.
   destruct (negb (printable ch)); [reflexivity|]. destruct (punct_lookup cfg o ch); [|reflexivity].
   cbn [fst]. apply add_segment_cur.
 Qed.
+Lemma ascii_proceed_geo o sg : sgeo sg -> sgeo (fst (ascii_proceed o sg)).
+Proof.
+  intros H. unfold ascii_proceed. destruct (negb (opts_get o opt_ascii_mode)); [exact H|].
+  destruct (cur_start sg <? length (sg_input sg)) eqn:El; [|exact H]. apply Nat.ltb_lt in El.
+  cbn [fst]. apply add_segment_geo; [exact H|]. split; cbn; lia.
+Qed.
+Lemma ascii_proceed_cur_start o sg : cur_start (fst (ascii_proceed o sg)) = cur_start sg.
+Proof.
+  unfold ascii_proceed. destruct (negb (opts_get o opt_ascii_mode)); [reflexivity|].
+  destruct (cur_start sg <? length (sg_input sg)); [|reflexivity]. cbn [fst]. apply add_segment_cur.
+Qed.
 Lemma segmentor_proceed_geo o h i sg : sgeo sg -> sgeo (fst (segmentor_proceed cfg o h i sg)).
 Proof.
   intros H. destruct i; cbn [segmentor_proceed fst];
-    [apply abc_proceed_geo | apply punct_proceed_geo | apply fallback_proceed_geo]; exact H.
+    [apply abc_proceed_geo | apply punct_proceed_geo | apply fallback_proceed_geo | apply ascii_proceed_geo]; exact H.
 Qed.
 Lemma seg_round_geo o h sg : sgeo sg -> sgeo (seg_round cfg o h sg).
 Proof. unfold seg_round. apply (run_segmentors_ind sgeo). intros i x. apply segmentor_proceed_geo. Qed.
@@ -597,6 +621,9 @@ Proof.
     destruct (punct_proceed cfg o h sg) as [sg1 cont]. cbn [fst] in *. rewrite <- C1.
     destruct cont; [apply IH, G1 | apply (cur_geo sg1 G1)].
   - apply fallback_progress, H.
+  - pose proof (ascii_proceed_geo o sg H) as G1. pose proof (ascii_proceed_cur_start o sg) as C1.
+    destruct (ascii_proceed o sg) as [sg1 cont]. cbn [fst] in *. rewrite <- C1.
+    destruct cont; [apply IH, G1 | apply (cur_geo sg1 G1)].
 Qed.
 Lemma round_progress o h sg : sgeo sg -> cur_start sg <= cur_end (seg_round cfg o h sg).
 Proof. apply run_segmentors_progress. Qed.
@@ -760,9 +787,13 @@ Proof. intros H; apply H. Qed.
 Lemma cinv_cpre c : cinv c -> cpre c.
 Proof. intros H; apply H. Qed.
 
-Lemma compose_inv c : cpre c -> cinv (compose cfg translate c).
+(** the ascii composer's slot on update_notifier_ writes an option and its own connection flag only *)
+Lemma ac_on_update_inv c : cinv c -> cinv (ac_on_update c).
+Proof. intros H. unfold ac_on_update. destruct (cx_conn c && negb (is_composing c)); exact H. Qed.
+
+Lemma compose_core_inv c : cpre c -> cinv (compose_core cfg translate c).
 Proof.
-  intros (Hc & Hs & Hi & Hci & He & Hg). unfold compose.
+  intros (Hc & Hs & Hi & Hci & He & Hg). unfold compose_core.
   set (sg0 := reset_input (cx_comp c) (firstn (cx_caret c) (cx_input c))).
   assert (H0 : segs_inv (sg_segs sg0)) by (apply reset_input_inv; exact Hs).
   set (sg1 := if (cx_caret c <? length (cx_input c)) && (cx_caret c =? confirmed_pos sg0)
@@ -801,6 +832,9 @@ Proof.
   - intros G. split; [apply G3, G | apply Hg, G].
   - split; [lia | intros _; lia].
 Qed.
+
+Lemma compose_inv c : cpre c -> cinv (compose cfg translate c).
+Proof. intros H. unfold compose. apply ac_on_update_inv, compose_core_inv, H. Qed.
 
 Lemma compose_with_input_inv c i k :
   cinv c -> k <= length i -> IP i -> cinv (compose cfg translate (ctx_with_input c i k)).
@@ -1064,7 +1098,7 @@ Qed.
 Lemma on_select_inv s : sinv s -> sg_segs (cx_comp (st_ctx s)) <> [] -> sinv (on_select cfg translate s).
 Proof.
   intros H Hne. unfold on_select.
-  match goal with |- sinv (mkSt (st_ctx ?x) _ _ _ _ _) => assert (Hx : sinv x); [|exact Hx] end.
+  match goal with |- sinv (mkSt (st_ctx ?x) _ _ _ _ _ _ _) => assert (Hx : sinv x); [|exact Hx] end.
   destruct (sg_segs (cx_comp (st_ctx s))) as [|g0 r] eqn:E; [congruence|].
   pose proof (seg_inv_close g0 (back_inv _ _ _ H E)) as Hg.
   assert (Hcg : forall x, s_start x = s_start (seg_close g0) -> s_end x = s_end (seg_close g0) ->
@@ -1530,6 +1564,71 @@ Proof.
   apply (IP_key 46). lia.
 Qed.
 
+(** ---- ascii_composer ---- *)
+Lemma sinv_with_ac s a : sinv s -> sinv (st_with_ac s a).
+Proof. intros H; exact H. Qed.
+Lemma cinv_conn c b : cinv c -> cinv (ctx_with_conn c b).
+Proof. intros H; exact H. Qed.
+Lemma commit_text_inv s t : sinv s -> sinv (commit_text s t).
+Proof. intros H; exact H. Qed.
+
+Lemma ac_switch_inv s m st : sinv s -> sinv (ac_switch cfg translate s m st).
+Proof.
+  intros H. unfold ac_switch. apply on_ctx_inv; [|intros c Hc; apply set_option_inv, Hc].
+  destruct (is_composing (st_ctx s)); [|exact H].
+  assert (H0 : sinv (on_ctx s (fun c => ctx_with_conn c false))) by exact H.
+  destruct st.
+  - destruct m; [|exact H0]. exact H0.
+  - apply confirm_current_selection_inv, H0.
+  - apply commit_inv. apply on_ctx_inv; [exact H0|]. intros c Hc. apply clear_non_confirmed_inv, Hc.
+  - apply on_ctx_inv; [exact H0|]. intros c Hc. apply clear_inv, Hc.
+  - exact H0.
+Qed.
+
+Lemma ac_toggle_with_key_inv s code : sinv s -> sinv (ac_toggle_with_key cfg translate s code).
+Proof.
+  intros H. unfold ac_toggle_with_key. destruct (ac_find (cf_ascii_keys cfg) code); [|exact H].
+  unfold ac_with_caps. apply sinv_with_ac, ac_switch_inv, H.
+Qed.
+
+Lemma ac_process_caps_lock_inv s k : sinv s -> sinv (fst (ac_process_caps_lock cfg translate s k)).
+Proof.
+  intros H. unfold ac_process_caps_lock.
+  destruct (k_code k =? XK_Caps_Lock)%Z.
+  - destruct (negb (k_release k)); [|exact H].
+    match goal with |- sinv (fst (if ?b then _ else _)) => destruct b end; [exact H|].
+    cbn [fst]. apply ac_switch_inv. exact H.
+  - destruct (k_caps k); [|exact H].
+    match goal with |- sinv (fst (if ?b then _ else _)) => destruct b end; [|exact H].
+    cbn [fst]. apply commit_text_inv, H.
+Qed.
+
+Lemma ascii_composer_process_inv s k : sinv s -> sinv (fst (ascii_composer_process cfg translate s k)).
+Proof.
+  intros H. unfold ascii_composer_process.
+  destruct ((k_shift k && k_ctrl k) || k_alt k || k_super k); [exact H|].
+  assert (H1 : sinv (fst (if ac_style_is_noop (ac_caps_style cfg) then (s, PNoop) else ac_process_caps_lock cfg translate s k))).
+  { destruct (ac_style_is_noop (ac_caps_style cfg)); [exact H | apply ac_process_caps_lock_inv, H]. }
+  destruct (if ac_style_is_noop (ac_caps_style cfg) then (s, PNoop) else ac_process_caps_lock cfg translate s k) as [s1 r].
+  cbn [fst] in H1. destruct (negb (presult_is_noop r)); [exact H1|].
+  destruct (k_code k =? XK_Eisu_toggle)%Z.
+  { destruct (negb (k_release k)); [|exact H1]. cbn [fst]. apply ac_toggle_with_key_inv. exact H1. }
+  cbv zeta.
+  match goal with |- sinv (fst (if ?b then _ else _)) => destruct b end.
+  - destruct (k_release k).
+    + destruct (ac_shift (st_ac s1) || ac_ctrl (st_ac s1)); [|exact H1]. cbn [fst]. unfold ac_unpress. apply sinv_with_ac.
+      match goal with |- sinv (if ?b then _ else _) => destruct b end; [apply ac_toggle_with_key_inv|]; exact H1.
+    + destruct (negb (ac_shift (st_ac s1) || ac_ctrl (st_ac s1))); exact H1.
+  - assert (H2 : sinv (ac_unpress s1)) by exact H1.
+    match goal with |- sinv (fst (if ?b then _ else _)) => destruct b end; [exact H2|].
+    destruct (get_option (st_ctx (ac_unpress s1)) opt_ascii_mode); [|exact H2].
+    destruct (negb (is_composing (st_ctx (ac_unpress s1)))); [exact H2|].
+    destruct (negb (k_release k) && (32 <=? k_code k)%Z && (k_code k <? 128)%Z) eqn:Ek; [|exact H2].
+    cbn [fst]. apply on_ctx_inv; [exact H2|]. intros c Hc. apply push_input_inv; [exact Hc|].
+    apply andb_prop in Ek as (Ek & E3). apply andb_prop in Ek as (_ & E2).
+    apply IP_key. lia.
+Qed.
+
 Lemma kb_perform_action_inv s a : sinv s -> sinv (kb_perform_action cfg translate s a).
 Proof.
   intros H. destruct a; cbn [kb_perform_action]; try exact H; apply on_ctx_inv; try exact H; intros c Hc; apply set_option_inv, Hc.
@@ -1563,7 +1662,7 @@ Lemma proc_of_inv kb i s k :
 Proof.
   intros Hkb H. destruct i; cbn [proc_of];
     [apply speller_process_inv | apply punctuator_process_inv | apply selector_process_inv
-     | apply navigator_process_inv | apply editor_process_inv | apply Hkb]; exact H.
+     | apply navigator_process_inv | apply editor_process_inv | apply Hkb | apply ascii_composer_process_inv]; exact H.
 Qed.
 
 Lemma run_processors_inv ps k :
@@ -1654,6 +1753,7 @@ Proof.
   - exact H.
   - exact H.
   - apply sinv_with, set_option_inv, H.
+  - exact H.
 Qed.
 
 Lemma init_inv : sinv (init_state cfg).
@@ -2026,7 +2126,7 @@ Qed.
 
 Definition op_ascii (o : op) : Prop := match o with OpSetInput v => all_ascii v | _ => True end.
 
-Lemma ascii_key z : (32 <= z < 127)%Z -> all_ascii [byte_of_N (Z.to_N z)].
+Lemma ascii_key z : (32 <= z < 128)%Z -> all_ascii [byte_of_N (Z.to_N z)].
 Proof.
   intros H. constructor; [|constructor]. unfold is_ascii, byte_of_N, N_of_byte.
   destruct (Byte.of_N (Z.to_N z)) as [b|] eqn:E; [|reflexivity].
